@@ -420,14 +420,16 @@ def work(rep, args):
     quick = args.tier == "quick"
     rng = random.Random(args.seed * 104729 + 12)
     oscore, _ = _env()
+    for d in oscore_env.tree_deviations():
+        rep.add_drift("tree under test deviates from the RFC 8613 Appendix C vectors: " + d)
     nsim = 400 if quick else 4000
     nrand = 300 if quick else 6000
     with tlc.Workdir() as wd:
         wd.write("RW_mc.cfg", MC_CFG % {"maxlen": 6 if quick else 7})
-        mc = tlc.run(wd, "ReplayWindow.tla", "RW_mc.cfg", timeout=300 if quick else 1500)
+        mc = tlc.run(wd, "ReplayWindow.tla", "RW_mc.cfg", timeout=1500 if quick else 3000)
         tlc.need_ok_run(mc, "ReplayWindow model check")
         wd.write("RW_edge.cfg", EDGE_CFG)
-        edges = tlc.run(wd, "ReplayWindow.tla", "RW_edge.cfg", workers=1, timeout=300)
+        edges = tlc.run(wd, "ReplayWindow.tla", "RW_edge.cfg", workers=1, timeout=1200)
         tlc.need_ok_run(edges, "ReplayWindow edge enumeration")
         edge_vals = tlc.printed_values(edges, "EDGE")
         if len(edge_vals) < 1000:
